@@ -17,7 +17,7 @@ MANIFEST = {
                  "integer cursor model",
     "text": "Every in-range sequence over {read(n), read(), seek(k), seek(d,1), tell, len} to depth 3 (thorough 4) on one "
             "handle and depth 2 (3) interleaved over two handles, without state merging, plus a BFS closure over the model "
-            "states (position, offsets-known, end-reached, last op) at any depth, for 11 format fixtures with and without "
+            "states (position, offsets-known, end-reached, last op) at any depth, for 13 format fixtures (incl. a DCD whose header frame count disagrees with the file, and a 10-atom mdcrd) with and without "
             "atom_indices; every step is executed on the real object and compared with the model and with the frames of a "
             "full read. Right level: the property is a statement about all histories of a tiny state machine.",
     "note": "Bounded: N=5 frames, 4 (xtc: 4 and 12) atoms; out-of-range operations are not issued; the full read is the "
@@ -28,8 +28,12 @@ MANIFEST = {
 from vlib import explore
 
 N = 5
-FORMATS = ["h5", "xtc", "xtc12", "trr", "dcd", "nc", "mdcrd", "xyz", "lammpstrj", "dtr", "arc"]
-NO_LEN = {"mdcrd", "lammpstrj", "arc"}   # __len__ raises NotImplementedError: "len, where offered"
+FORMATS = ["h5", "xtc", "xtc12", "trr", "dcd", "dcdhdr", "nc", "mdcrd", "mdcrd10", "xyz", "lammpstrj", "dtr", "arc"]
+# dcdhdr: a DCD whose header frame count (3) disagrees with the file (5 frames) -- an interrupted / appended run;
+# mdtraj documents that it then goes by the file size.  mdcrd10: 10 atoms = exactly three full 10-field lines per frame.
+NATOMS = {"xtc12": 12, "mdcrd10": 10}
+EXT = {"xtc12": "xtc", "mdcrd10": "mdcrd", "dcdhdr": "dcd"}
+NO_LEN = {"mdcrd", "mdcrd10", "lammpstrj", "arc"}   # __len__ raises NotImplementedError: "len, where offered"
 NO_SEEK = {"arc"}          # seek/tell/len raise NotImplementedError: not a seekable format; read ops only
 _FIX = {}
 
@@ -66,10 +70,15 @@ def make_fixtures(ctx):
                         fh.write("%6s  %-3s%16s%16s%16s" % tuple(w[:5]) + "".join("%6s" % x for x in w[5:]) + "\n")
             fx[fmt] = p
             continue
-        natoms = 12 if fmt == "xtc12" else 4
-        ext = "xtc" if fmt == "xtc12" else fmt
-        p = os.path.join(d, "c18_%s.%s" % (fmt, ext))
+        natoms = NATOMS.get(fmt, 4)
+        p = os.path.join(d, "c18_%s.%s" % (fmt, EXT.get(fmt, fmt)))
         _traj(natoms, ctx.seed).save(p)
+        if fmt == "dcdhdr":
+            with open(p, "r+b") as fh:
+                raw = fh.read(12)
+                assert raw[:8] == b"\x54\x00\x00\x00CORD" and int.from_bytes(raw[8:12], "little") == N, raw
+                fh.seek(8)
+                fh.write((3).to_bytes(4, "little"))
         fx[fmt] = p
     return fx
 
@@ -84,7 +93,24 @@ def _norm(ret):
 def _open(p):
     import mdtraj as md
     if p.endswith(".mdcrd"):
-        return md.open(p, "r", n_atoms=4)
+        return md.open(p, "r", n_atoms=10 if "mdcrd10" in p else 4)
+    if "dcdhdr" in p:
+        # the plugin printf()s "header claims 3 frames, file size indicates 5" on every open: keep it off the check output
+        import ctypes
+        import sys
+        libc = ctypes.CDLL(None)
+        sys.stdout.flush()
+        libc.fflush(None)
+        keep = os.dup(1)
+        null = os.open(os.devnull, os.O_WRONLY)
+        try:
+            os.dup2(null, 1)
+            return md.open(p, "r")
+        finally:
+            libc.fflush(None)
+            os.dup2(keep, 1)
+            os.close(keep)
+            os.close(null)
     return md.open(p, "r")
 
 
